@@ -20,8 +20,8 @@ from simkit.world import World
 PROP = "C08"
 LEVEL = "fault_enumeration"
 TIERS = {
-    "quick": dict(runs=400, timeout=300, fault_budget=14, p_e2e=0.04, e2e_fault_budget=6, shrink_seconds=120, shrink_steps=120),
-    "thorough": dict(runs=2500, timeout=900, fault_budget=400, p_e2e=0.1, e2e_fault_budget=40, shrink_seconds=400, shrink_steps=400),
+    "quick": dict(runs=400, timeout=300, fault_budget=14, p_e2e=0.04, e2e_fault_budget=6, pair_budget=2, shrink_seconds=120, shrink_steps=120),
+    "thorough": dict(runs=2500, timeout=900, fault_budget=400, p_e2e=0.1, e2e_fault_budget=40, pair_budget=25, shrink_seconds=400, shrink_steps=400),
 }
 
 SENTINEL = "SENTINEL: previous content of the output location\n"
@@ -55,7 +55,7 @@ def generate(rng, index, cfg):
         return {"scenario": sc, "fault_budget": cfg.get("e2e_fault_budget", 6), "explicit_faults": None}
     entry = rng.choice(["nbmerge", "nbmerge", "driver"])
     base, local, remote = nbgen.triple(rng, max_cells=rng.choice([1, 2, 3]), overlap=rng.choice([0.3, 0.7, 1.0]),
-                                       minor=rng.choice([4, 5]), kinds=rng.choice([None, ["src"] * 5 + ["out", "md", "ins"]]))
+                                       minor=rng.choice([4, 5]), kinds=rng.choice([None, ["src"] * 5 + ["out", "md", "ins"], ["src"]]))
     triple = {"base": base, "local": local, "remote": remote}
     shape = rng.choice(["plain"] * 6 + ["base_null", "base_empty", "local_null", "remote_null", "both_null", "missing", "local_empty"])
     if entry == "driver" and shape in ("base_null", "local_null", "remote_null", "both_null", "missing"):
@@ -88,7 +88,7 @@ def generate(rng, index, cfg):
     sc = {"entry": entry, "shape": shape, "triple": triple, "flags": flags, "out": out, "decisions": decisions,
           "helpers": rng.choice([["git", "diff3", "diff"], ["git", "diff3", "diff"], ["diff3", "diff"], ["git"], []]),
           "line_faults": rng.randint(0, 3), "pathname_exists": rng.random() < 0.8}
-    return {"scenario": sc, "fault_budget": cfg["fault_budget"], "explicit_faults": None}
+    return {"scenario": sc, "fault_budget": cfg["fault_budget"], "pair_budget": cfg.get("pair_budget", 0), "explicit_faults": None}
 
 
 # ------------------------------------------------------------------ one pass of the simulated process
@@ -402,6 +402,16 @@ def check_faulted(sc, ref, res, fault, violate):
         if not ok:
             violate("F1", dict(sig, what="output"), "status 0 after fault %r but %s" % (fault, why))
             return "violation"
+        if res["fired_phase"] == "merge_called" and "merged" in ref["captured"]:
+            # The fault hit a step *inside* the merge (helper process, temp file, allocation).  Success may only be
+            # reported if the step's failure was harmless, i.e. the result is the fault-free result.
+            known = _collect_ids(cap.get("inputs") or [])
+            if _has_conflict(ref["captured"]["decisions"]) or \
+                    _mask_ids(cap["merged"], known) != _mask_ids(ref["captured"]["merged"], known):
+                violate("F1", dict(sig, what="failed_step_inside_merge_reported_as_success"),
+                        "status 0 after fault %r inside the merge, but the result differs from the fault-free result "
+                        "(fault-free run: %s)" % (fault, "conflicts remain" if _has_conflict(ref["captured"]["decisions"]) else "other merged notebook"))
+                return "violation"
         verified_complete = True
     elif st == 1 and res["normal_return"] and "merged" in cap and _has_conflict(cap["decisions"]):
         if cap["inputs"] != ref["captured"]["inputs"]:
@@ -446,6 +456,10 @@ def _enumerate_faults(ref_events, sc, rng, budget, line_total):
     if total > budget:
         # stratified: first one fault per distinct (event kind, path class), then fill up at random
         rng.shuffle(faults)
+        # rare and valuable boundaries first: helper processes and their temp files (inside the merge)
+        faults.sort(key=lambda f: 0 if (f["at"][0] in ("spawn", "mkdtemp", "rmtree") or str(f["at"][1]).startswith("tmp")) else 1)
+        head = [f for f in faults if f["at"][0] == "spawn"][: max(2, budget // 3)]
+        faults = head + [f for f in faults if f not in head]
         picked, classes = [], set()
         for f in faults:
             c = (f["at"][0], str(f["at"][1]).split(":")[0], f["kind"])
@@ -509,8 +523,26 @@ def execute(trace, scratch):
         stat("scenarios_all_single_faults_enumerated")
     outcomes = {}
     first_violating = None
-    for f in faults:
-        res = run_pass([f], line_total=line_total)
+    plans = [[f] for f in faults]
+    if explicit is None and trace.get("pair_budget"):
+        # sampled double faults: a non-fatal first fault (error, not kill) followed by a second one at a later boundary
+        seam = [e for e in ref["events"] if tuple(e) != ("open_w", "stdout", 0)]
+        for _ in range(trace["pair_budget"]):
+            if len(seam) < 2:
+                break
+            i = rng.randrange(len(seam) - 1)
+            j = rng.randrange(i + 1, len(seam))
+            k1 = [k for k in LEGAL.get(seam[i][0], []) if k not in ("kill",)]
+            k2 = LEGAL.get(seam[j][0], [])
+            if k1 and k2 and seam[i] != seam[j]:
+                plans.append([{"at": list(seam[i]), "kind": rng.choice(k1)}, {"at": list(seam[j]), "kind": rng.choice(k2)}])
+    elif explicit is not None and trace.get("explicit_is_one_plan"):
+        plans = [list(explicit)]
+    for plan in plans:
+        f = plan[-1] if len(plan) > 1 else plan[0]
+        if len(plan) > 1:
+            stat("double_fault_passes")
+        res = run_pass(plan, line_total=line_total)
         stat("passes")
         stat("fault_passes")
         nv = len(violations)
@@ -522,7 +554,7 @@ def execute(trace, scratch):
             distinct["fault_site"].add("%s|%s|%s" % (f["at"][0], str(f["at"][1]).split(":")[0] if f["at"][0] != "line" else "merge", f["kind"]))
         log.ev("pass", fault=f, status=res["status"], outcome=out, digest=res["digest"])
         if len(violations) > nv and first_violating is None:
-            first_violating = f
+            first_violating = plan
     sample = {"entry": sc["entry"], "shape": sc["shape"], "out": sc["out"], "flags": sc["flags"], "decisions": sc["decisions"],
               "helpers": sc["helpers"], "reference": {"status": ref["status"], "kind": kind, "seam_events": ref["events"][:60]},
               "faults_tried": len(faults), "faults_possible": total, "outcomes": outcomes}
@@ -728,7 +760,7 @@ def shrink(trace, fails, budget):
         r = core.run_one_forked(execute, (trace,), 600)
         vf = r.get("ok", {}).get("violating_fault") if "ok" in r else None
         if vf is not None:
-            cand = dict(trace, explicit_faults=[vf])
+            cand = dict(trace, explicit_faults=vf if isinstance(vf, list) else [vf], explicit_is_one_plan=isinstance(vf, list) and len(vf) > 1)
             budget.spend()
             if fails(cand):
                 trace = cand
